@@ -3,6 +3,10 @@
 HOOK_COMMITS = ["b8da976", "b9b8f57", "e9be43a", "cdf7848"]
 
 CLAIMS = {
+    "C05": dict(
+        category="proof", technique="contract-based deductive verification (Verus/SMT, inductive invariants over a sequence view, on the extracted real functions; Arrow array behind an assumed sequence view)",
+        text="Dense-key (perfect-hash) join map only: ArrayMap::{calculate_range, key_to_index, get_value, fill_data, try_new} are proved to build, for every key, a chain listing exactly the build rows with that key in ascending order (both representations: no duplicates / chained), and ArrayMap::lookup_and_get_indices is proved to return, page by page and for every resume offset, exactly the join of the probe key column with the build key column: for every non-NULL probe row, in order, every build row with an equal key, each once; NULL probes match nothing; at most `limit` pairs per page; pages concatenate to the unpaged answer. All other join operators, join types, filters, outer/semi/anti/mark emission of C05 are whole-engine behaviour outside the reach of function contracts and are not claimed.",
+        note="Trusted: Verus+Z3; usize 64 bit; Arrow PrimitiveArray viewed as Seq<Option<u64>> through assumed accessors; generic key type abstracted to its u64 image (R3), the type-dispatch macro replaced by the call it expands to; rewrites R1/R6/R9/R13/R18 and a ghost parameter naming the build column. Preconditions from call sites: build rows < u32::MAX, probe rows <= u32::MAX, 1 <= limit."),
     "C06": dict(
         category="proof", technique="contract-based verification with Kani/CBMC on the real crate (loop-free full-domain harnesses over the state machines)",
         text="The ordered-aggregation emission state machines GroupOrderingFull / GroupOrderingPartial are proved, for every state and every argument, never to release the group (or sort-key run) that can still receive rows: emit_to is None / First(n) with n <= the open group / All only after input_done; remove_groups renumbers by exactly n; illegal transitions panic. Everything else in C06 (hash tables, accumulators, spilling, TopK, partial/final agreement) is whole-engine and not claimed.",
@@ -62,7 +66,6 @@ NOT_APPLICABLE = {
     'C02': 'Configuration/schedule independence of whole queries: needs execution under many configs and thread schedules; Kani has no threads, Verus cannot see the engine.',
     'C03': 'Semantic equivalence of plan rewrites: needs a formal semantics of `LogicalPlan`; rules are thousands of lines of enum/`Arc` rewriting outside both verifiers.',
     'C04': 'Expression simplifier value preservation: needs an expression evaluator semantics and Arrow kernels; out of reach.',
-    'C05': 'Join operators end to end: async streams, Arrow builders, bitmaps; only the hash-chain lookup core is reachable and is claimed under C14.',
     'C07': 'Accumulator split/merge/retract laws: generic Arrow kernels, floats and macro-generated impls; no contract within reach.',
     'C12': 'Hash independence from physical array layout: quantifies over Arrow encodings (dictionary, views, run-end, nested offsets); Arrow arrays are outside Verus and intractable under CBMC.',
     'C13': 'Group-key interning: hashbrown tables + Arrow builders per key type; only the trivial boolean store is reachable, which would not represent the property.',
